@@ -496,6 +496,21 @@ def b_hash(ex, e, st):
     return Val(mk_i(f(v.t)), 'int')
 
 
+def b_float(ex, e, st):
+    used('float(str): ValueError unless the text is a float literal (language not modelled); value opaque')
+    v = ex.ev(e.args[0], st)
+    if v.ty == 'float':
+        return v
+    if v.ty == 'int':
+        f = z3.Function('float_of_int', z3.IntSort(), z3.IntSort())
+        return Val(V.fl(f(iv(v.t))), 'float')
+    ex.need_type(st, v, is_s, 'float-arg', e)
+    ok = z3.Function('float_parse_ok', z3.StringSort(), z3.BoolSort())
+    val = z3.Function('float_parse', z3.StringSort(), z3.IntSort())
+    ex.raise_if(st, z3.Not(ok(sv(v.t))), 'ValueError', 'safe/float-parse', e)
+    return Val(V.fl(val(sv(v.t))), 'float')
+
+
 def b_bytes(ex, e, st):
     used('bytes(list of ints): ValueError unless every element is in range(256)')
     v = ex.ev(e.args[0], st)
@@ -589,7 +604,7 @@ def b_next(ex, e, st):
     return apply_contract(ex, REG.externs[key], None, st.env.get('self'), args[1:], {}, e, st, pnames=None, extra_env={'callee': args[0]})
 
 
-BUILTIN_FUNCS = {'bytes': b_bytes, 'hash': b_hash, 'sorted': b_sorted, 'next': b_next, 'len': b_len, 'isinstance': b_isinstance, 'ord': b_ord, 'chr': b_chr, 'int': b_int, 'str': b_str,
+BUILTIN_FUNCS = {'float': b_float, 'bytes': b_bytes, 'hash': b_hash, 'sorted': b_sorted, 'next': b_next, 'len': b_len, 'isinstance': b_isinstance, 'ord': b_ord, 'chr': b_chr, 'int': b_int, 'str': b_str,
                  'bool': b_bool, 'list': b_list, 'tuple': b_tuple, 'dict': b_dict, 'getattr': b_getattr,
                  'hasattr': b_hasattr, 'max': b_max, 'min': b_min, 'id': b_id, 'type': b_type, 'repr': b_repr}
 
@@ -756,7 +771,12 @@ def m_str(ex, recv, name, e, st):
         return Val(mk_y(f(s_, enc)), 'bytes')
     if name == 'split':
         f = z3.Function('str_split', z3.StringSort(), SeqV, SeqV)
-        return ex.new_list(st, f(s_, ex.seq_lit(args)), 'list')
+        r = f(s_, ex.seq_lit(args))
+        k = z3.Int(fresh_name('sk'))
+        # str.split returns a non-empty list of strings (contents uninterpreted)
+        st.assume(z3.Length(r) >= 1)
+        st.assume(z3.ForAll([k], z3.Implies(z3.And(0 <= k, k < z3.Length(r)), is_s(r[k]))))
+        return ex.new_list(st, r, 'list')
     if name in ('isdigit', 'isalpha', 'isalnum', 'isspace', 'isupper', 'islower'):
         f = z3.Function('str_' + name, z3.StringSort(), z3.BoolSort())
         return Val(mk_b(f(s_)), 'bool')
